@@ -149,6 +149,9 @@ func declaredSources(repo string) (map[lint.LintSource]bool, error) {
 	return out, nil
 }
 
+// c12OddNames: deliberately ill-formed names the harness itself registered (own-process scenario): their FORM is not judged
+var c12OddNames = map[string]bool{}
+
 var declaredOnce sync.Once
 
 func loadDeclaredSources(c *mon.Ctx) {
@@ -279,7 +282,7 @@ func c12Invariants(c *mon.Ctx, g lint.Registry, names []string, inReg map[string
 			c.V("name-mismatch|"+n, when+": "+fmt.Sprintf("ByName(%s) returns a lint named %q", n, m.Name), n, nil, nil)
 		}
 		pre := strings.HasPrefix(n, "e_") || strings.HasPrefix(n, "w_") || strings.HasPrefix(n, "n_")
-		if !pre || len(n) <= 2 || n != strings.ToLower(n) || strings.ContainsAny(n, " \t\r\n") {
+		if (!pre || len(n) <= 2 || n != strings.ToLower(n) || strings.ContainsAny(n, " \t\r\n")) && !c12OddNames[n] {
 			c.V("bad-name|"+n, when+": "+fmt.Sprintf("lint name %q is not a lower-case e_/w_/n_-prefixed name without blanks", n), n, nil, nil)
 		}
 		if strings.TrimSpace(m.Description) == "" {
@@ -463,6 +466,62 @@ func c12Solo(c *mon.Ctx) {
 		}
 		if len(g.Names()) != before+k+1 {
 			c.V("addition-not-listed", fmt.Sprintf("after %d additions Names() has %d entries, want %d", k+1, len(g.Names()), before+k+1), "", nil, nil)
+		}
+	}
+	// names that differ from a listed name of ANOTHER kind only by surrounding white space (a trailing blank, the
+	// newline of a raw string literal). Such a lint is ill-named by this property's own rule - that part is not judged,
+	// the harness registered it - but whatever the registry does with it (refuse it, or list it under its own name), the
+	// names it lists must stay unique across kinds and its lookups must keep agreeing with each other.
+	firstOf := func(k corpus.Kind) string {
+		for _, li := range Inv {
+			if li.Kind == k {
+				return li.Name
+			}
+		}
+		return ""
+	}
+	odd := []struct {
+		name string
+		reg  func(n string)
+	}{
+		{firstOf(corpus.Cert) + " ", func(n string) {
+			lint.RegisterRevocationListLint(&lint.RevocationListLint{LintMetadata: lint.LintMetadata{Name: n, Description: "verif addition", Citation: "verif", Source: lint.Community}, Lint: func() lint.RevocationListLintInterface { return probeCRL{} }})
+		}},
+		{" " + firstOf(corpus.CRL), func(n string) {
+			lint.RegisterOcspResponseLint(&lint.OcspResponseLint{LintMetadata: lint.LintMetadata{Name: n, Description: "verif addition", Citation: "verif", Source: lint.Community}, Lint: func() lint.OcspResponseLintInterface { return probeOCSP{} }})
+		}},
+		{firstOf(corpus.OCSP) + "\n", func(n string) {
+			lint.RegisterCertificateLint(&lint.CertificateLint{LintMetadata: lint.LintMetadata{Name: n, Description: "verif addition", Citation: "verif", Source: lint.Community}, Lint: func() lint.CertificateLintInterface { return probeCert{} }})
+		}},
+		{"\t" + firstOf(corpus.Cert) + " ", func(n string) {
+			lint.RegisterOcspResponseLint(&lint.OcspResponseLint{LintMetadata: lint.LintMetadata{Name: n, Description: "verif addition", Citation: "verif", Source: lint.Community}, Lint: func() lint.OcspResponseLintInterface { return probeOCSP{} }})
+		}},
+		{"e_verif_c12_cert2 ", func(n string) {
+			lint.RegisterRevocationListLint(&lint.RevocationListLint{LintMetadata: lint.LintMetadata{Name: n, Description: "verif addition", Citation: "verif", Source: lint.Community}, Lint: func() lint.RevocationListLintInterface { return probeCRL{} }})
+		}},
+	}
+	for k, od := range odd {
+		if strings.TrimSpace(od.name) == "" {
+			continue
+		}
+		c12OddNames[od.name] = true
+		nBefore := len(g.Names())
+		refused := false
+		func() {
+			defer func() {
+				if recover() != nil {
+					refused = true
+				}
+			}()
+			od.reg(od.name)
+		}()
+		c.R.Count("padded_name_registrations", 1)
+		if refused {
+			c.R.Count("padded_name_registrations_refused", 1)
+		}
+		pass(fmt.Sprintf("after registering a lint named %q for another kind (padded name %d, refused=%v)", od.name, k+1, refused))
+		if n := len(g.Names()); refused && n != nBefore || !refused && n != nBefore+1 {
+			c.V("padded-name-count", fmt.Sprintf("registering a lint named %q (refused=%v) took Names() from %d to %d entries", od.name, refused, nBefore, n), "", nil, nil)
 		}
 	}
 	// the deprecated API used the way old code uses it: ONE lint.Lint value re-used as a template for a family of
